@@ -54,6 +54,19 @@ impl FangsList {
         }
     }
 
+    /// put `outer`'s fangs around `self`'s own ones (fangs apply to everything under the node they are attached to)
+    #[cfg(feature="__rt_native__")]
+    pub(super) fn inherit(&mut self, outer: &Self) {
+        self.0.retain(|(id, _)| outer.0.iter().all(|(_id, _)| _id != id));
+        self.0.extend(outer.0.iter().cloned());
+    }
+
+    #[cfg(feature="__rt_native__")]
+    pub(super) fn is_same_as(&self, another: &Self) -> bool {
+        self.0.len() == another.0.len()
+        && self.0.iter().zip(&another.0).all(|((a, _), (b, _))| a == b)
+    }
+
     /// yield from most inner fangs
     fn into_iter(self) -> impl Iterator<Item = Arc<dyn Fangs>> {
         self.0.into_iter()
